@@ -92,6 +92,29 @@ def run(ctx, rep):
                       b.loc(), sample={"mode": vn, "value": [fmt_origin(e) for e in exprs]})
     rep.floor("R3.3", 12)
     encode_order(ctx, rep)
+    encode_inventory(ctx, rep)
+
+
+def encode_inventory(ctx, rep):
+    """R3.5: a packet (in particular one obtained by decoding) never makes the encoder abort except through the three
+    documented refusals in encode_length"""
+    import absint as ai
+    import panics
+    from props.c04 import duration_instances
+    inst = duration_instances(ctx)
+
+    def extra(s):
+        if s["fn"] == "insim_core::duration::binrw_write_duration" and s["kind"] == "assert" and s["what"] == "div_zero":
+            scales = {sc for (_t, sc) in inst}
+            if scales and all(sc.isdigit() and int(sc) > 0 for sc in scales):
+                return "`/ SCALE`: every instantiation uses a non-zero scale %s" % sorted(scales)
+        return None
+    roots = ["insim::net::codec::Codec::encode", "<insim::packet::Packet as binrw::binwrite::BinWrite>::write_options"]
+    inv, sites = panics.check_paths(ctx, rep, "R3.5", roots, label="encode", extra_discharge=extra)
+    rep.check("R3.5", "coverage:writers", len([n for n in inv.reach if n.endswith("binrw::binwrite::BinWrite>::write_options")]) >= 130,
+              "expected at least 130 BinWrite impls on the encode path (found %d)" % len([n for n in inv.reach if n.endswith("binrw::binwrite::BinWrite>::write_options")]), None,
+              sample={"functions_reachable": len(inv.reach), "sites": len(sites)})
+    rep.floor("R3.5", 20)
 
 
 def encode_order(ctx, rep):
